@@ -334,6 +334,18 @@ Definition xml_ref10 (s : string) : option (string * nat) :=
    (XML 1.0 2.11), then references expanded (a character reference is NOT normalised: &#xD; stays U+000D) *)
 Definition xml_read10 (s : string) : string := unesc_go xml_ref10 0 (xml_eol_normalize s).
 
+(* the tree a reader holds after reading [go_write n]: the same elements, every attribute value and character datum being
+   what it recovers from the escaped bytes *)
+Fixpoint map_values (f : string -> string) (n : node) : node :=
+  match n with
+  | Elem sp t a k =>
+      Elem sp t (map (fun x => {| at_space := at_space x; at_key := at_key x; at_val := f (at_val x) |}) a)
+           (map (map_values f) k)
+  | Text s => Text (f s)
+  | other => other
+  end.
+Definition reader_tree (n : node) : node := map_values (fun v => xml_read10 (go_escape v)) n.
+
 (* the token view of a PARSED document (what Decoder.Token yields for the bytes): as Schema.view, without the CR
    normalisation that Schema.view applies to model etree's raw re-serialisation — here the values are already the
    reader's values *)
